@@ -23,7 +23,8 @@ EXPLANATION = (
     "written (guard evaluated over boundary values).")
 NOT_DECIDED = ("parse(write(x)) == x on values (round trip); overflow of un-prefixed fixed-size fields; "
                "the write/parse layout comparison of the design (C15.LAYOUT) is not built")
-TECHNIQUE = "typestate and must-pass-through on parser CFGs, registry/table agreement, finite-domain evaluation of loop and overflow guards"
+TECHNIQUE = ("typestate and must-pass-through on parser CFGs, registry/table agreement, finite-domain evaluation of "
+             "loop and overflow guards; write/parse field traces of flat structures")
 
 PARSE_MODULES = ("messages", "extensions", "x509")
 CONSUMERS = {"get", "getFixBytes", "getVarBytes", "getFixList", "getVarList", "getVarTupleList", "skip_bytes",
